@@ -7,6 +7,7 @@ from ..cfg import stmt_of
 from ..model import AnalysisError, const_value, dotted, kwarg, norm_text, walk_no_nested
 from ..report import Context
 from .common import arg_or_kw, calls_in, callee, enclosing_ifs, is_none, method_calls
+from .common import path_conditions as _pc09
 
 UGRID = 'emsarray.conventions.ugrid'
 TOPO = f"{UGRID}.Mesh2DTopology"
@@ -161,11 +162,22 @@ def run(ctx: Context) -> None:
         comps = [n for n in ast.walk(uc.node) if isinstance(n, ast.ListComp) and isinstance(n.elt, ast.ListComp)]
         ctx.need('R09.3', len(comps) == 1, "update_connectivity rebuilds the table row by row", uc)
         outer, inner = comps[0], comps[0].elt
-        ok_rows = norm_text(outer.generators[0].iter) == f"{old_p}[include_row]" and not outer.generators[0].ifs
-        inc = [n for n in walk_no_nested(uc.node) if isinstance(n, ast.Assign) and norm_text(n.targets[0]) == 'include_row']
-        ok_rows = ok_rows and bool(inc) and norm_text(inc[0].value) == f"~numpy.ma.getmask({row_p})"
+        # rows: old_array[<not the mask of the row indexes>], named or not
+        rows = uflow.resolve(outer.generators[0].iter)
+        ok_rows, inc_text = False, '?'
+        if isinstance(rows, ast.Subscript) and norm_text(rows.value) == old_p and not outer.generators[0].ifs:
+            sel = uflow.resolve(rows.slice)
+            inc_text = norm_text(sel)
+            inner_ = None
+            if isinstance(sel, ast.UnaryOp) and isinstance(sel.op, ast.Invert):
+                inner_ = sel.operand
+            elif isinstance(sel, ast.Call) and callee(ctx, uc, sel) in ('numpy.logical_not', 'numpy.invert', 'numpy.bitwise_not') and len(sel.args) == 1 and not sel.keywords:
+                inner_ = sel.args[0]
+            inner_ = uflow.resolve(inner_) if inner_ is not None else None
+            ok_rows = (isinstance(inner_, ast.Call) and callee(ctx, uc, inner_) in ('numpy.ma.getmask', 'numpy.ma.getmaskarray') and len(inner_.args) == 1
+                       and norm_text(inner_.args[0]) == row_p)
         ctx.check('R09.3', ok_rows, "exactly the rows of kept elements are written, in their original order", uc, outer,
-                  construct=f"rows: {norm_text(outer.generators[0].iter)} with include_row = {norm_text(inc[0].value) if inc else '?'}")
+                  construct=f"rows: {norm_text(rows)[:60]} selected by {inc_text[:60]}")
         e = inner.elt
         # (conditional expressions are normalised to their positive test)
         ivar = inner.generators[0].target.id if isinstance(inner.generators[0].target, ast.Name) else '?'
@@ -227,6 +239,17 @@ def run(ctx: Context) -> None:
                         dropped = set(ls) if ls is not None else None
         elif av is not None and norm_text(av) == f"{conn_p}.attrs":
             dropped = set()
+        elif av is not None and 'attrs' in kws and isinstance(kws['attrs'], ast.Name):
+            # a copy of the table's attributes with keys taken out of it: dict(attrs) / attrs.copy() / {**attrs}, then .pop(key, default)
+            is_copy = ((isinstance(av, ast.Call) and dotted(av.func) == 'dict' and len(av.args) == 1 and not av.keywords and norm_text(av.args[0]) == f"{conn_p}.attrs")
+                       or (isinstance(av, ast.Call) and isinstance(av.func, ast.Attribute) and av.func.attr == 'copy' and not av.args and norm_text(av.func.value) == f"{conn_p}.attrs")
+                       or (isinstance(av, ast.Dict) and av.keys == [None] and norm_text(av.values[0]) == f"{conn_p}.attrs"))
+            name_ = kws['attrs'].id
+            uses = [n for n in ast.walk(uc.node) if isinstance(n, ast.Name) and n.id == name_ and isinstance(n.ctx, ast.Load) and n is not kws['attrs']]
+            pops = [c for c in calls_in(uc) if isinstance(c.func, ast.Attribute) and c.func.attr == 'pop' and isinstance(c.func.value, ast.Name) and c.func.value.id == name_
+                    and len(c.args) == 2 and isinstance(const_value(c.args[0], None), str) and not _pc09(uc, c) and c.lineno < mk[0].lineno]
+            if is_copy and len(uflow.defs_of(kws['attrs'])) == 1 and all(any(u is c.func.value for c in pops) for u in uses):
+                dropped = {const_value(c.args[0], None) for c in pops}
         ctx.check('R09.3', dropped is not None and dropped <= {'_FillValue', 'missing_value'},
                   "the attributes are those of the input table (start_index, cf_role, long_name ... are kept); only fill declarations may be left out", uc, mk[0] if mk else uc.node,
                   construct=f"attrs = {norm_text(av) if av is not None else '?'}; left out: {sorted(dropped) if dropped is not None else '?'}")
